@@ -152,3 +152,26 @@ def diags_of(errs, loc=-1):
         else:
             res.append((3, line, this_loc))
     return res
+
+
+# ---------------------------------------------------------------------------------------------
+# samples of what a run actually explored (written into the evidence by check.py)
+
+_SAMPLES = {}
+
+
+def sample(stream, case, per_stream=2):
+    """remember the first few real cases of a stream"""
+    lst = _SAMPLES.setdefault(stream, [])
+    if len(lst) < per_stream:
+        try:
+            import json
+            lst.append(json.loads(json.dumps(case, default=str)))
+        except Exception:  # noqa
+            lst.append(str(case)[:500])
+
+
+def take_samples():
+    out = [{"stream": k, "case": c} for k, v in _SAMPLES.items() for c in v]
+    _SAMPLES.clear()
+    return out
